@@ -200,6 +200,32 @@ def rule_f(repo, prop='C06'):
     return findings, n
 
 
+def rule_h(repo, an, prop='C06'):
+    """a public function hands back (an alias of) one of its tensor-train arguments only if it is an in-place operation on that argument: a value-returning
+    operation whose result IS its operand on some path (a "nothing to do" shortcut) couples the two -- an in-place operation on the result rewrites the operand.
+    Returns (findings, number of summaries examined)."""
+    findings, n = [], 0
+    for (qual, ct), sm in sorted(an.summ.items(), key=lambda kv: kv[0][0]):
+        fn = repo.fns[qual]
+        if not fn.public:
+            continue
+        consts = dict(ct)
+        n += 1
+        for a in sorted(sm.ret.alias):
+            if not a.startswith('P:'):
+                continue
+            path = a[2:]
+            root = path.split('.')[0]
+            if root not in sm.ttkind and path not in sm.ttkind:
+                continue
+            if inplace_allowed(fn, path, consts):
+                continue
+            variant = (' {overwrite=%s}' % consts['overwrite']) if 'overwrite' in consts else ''
+            findings.append(Finding(prop, 'R-h', fn.where + variant, f'return -> {path}', f'on some path the result is the argument `{path}` itself although the call is not an in-place '
+                                    f'operation on it: a later in-place operation on the result (ortho, transpose(overwrite=True), ...) changes the operand', fn.file, fn.node.lineno))
+    return findings, n
+
+
 # the state of a tensor train is its core list and the metadata that can be read off the cores; basis-function objects initialise their dimension lazily
 OBJECT_STATE = {'TT': {'order', 'row_dims', 'col_dims', 'ranks', 'cores'}}
 LAZY_OK = {'dimension', 'initialized'}
@@ -458,6 +484,7 @@ def check(repo, tier):
     run.rule('R-c', 'no tensor train is built around the core list object of another live tensor train')
     run.rule('R-e', 'results appended to a list in a loop are not one loop-invariant object that the loop mutates')
     run.rule('R-f', 'no function writes module-level state (memoisation caches, global counters): distinct calls return distinct live objects and never a value computed for earlier arguments')
+    run.rule('R-h', 'a public function returns (an alias of) one of its tensor-train arguments only if it is an in-place operation on that argument')
     run.rule('R-g', 'no object keeps derived state: a tensor train has no attribute besides cores / order / row_dims / col_dims / ranks that is written and read (cached flags, norms, '
              'canonical-form markers cannot be kept current because the core list is public); no method other than __init__ of another class writes an attribute that is read '
              '(evaluation caches), except the lazily initialised dimension of the basis functions')
@@ -487,6 +514,10 @@ def check(repo, tier):
     for f in f_f:
         run.add(f)
     run.oblige('R-f', ('whole repository', n_f), not f_f)
+    f_h, n_h = rule_h(repo, an)
+    for f in f_h:
+        run.add(f)
+    run.oblige('R-h', ('all public functions', n_h), not f_h)
     f_g, n_g = rule_g(repo)
     for f in f_g:
         run.add(f)
